@@ -145,6 +145,7 @@ type c17Builder struct {
 	fdir                                      []string // FIELD_DEFINITION directive applications available
 	needHand                                  map[string]bool
 	models                                    map[string]string // GraphQL type -> Go type for the models: block
+	resolverFields                            map[string][]string // GraphQL type -> fields with `resolver: true` in the models: block
 }
 
 var c17ObjPool = []string{"Item", "Order", "User", "Widget", "Place", "Event", "Doc", "Team", "Asset", "Album", "Parcel", "Ticket"}
@@ -169,19 +170,26 @@ func c17LcFirst(s string) string {
 type C17Quirks map[string]bool
 
 // C17QuirkNames lists the quirks in a fixed order.
-var C17QuirkNames = []string{"nestedNullMix", "dirArgPredeclared", "funcSyntaxGoEnum", "stubKeywordType"}
+var C17QuirkNames = []string{"nestedNullMix", "dirArgPredeclared", "funcSyntaxGoEnum", "stubKeywordType",
+	"argNamedPanic", "autobindIntrospection", "valueStructCycle3"}
 
 // C17QuirkApplies says whether the row has the factors the quirk needs.
 func C17QuirkApplies(q string, r C17Row) bool {
 	switch q {
 	case "nestedNullMix":
-		return r.B("lists")
+		return r.B("lists") && !r.B("omit_slice_element_pointers")
 	case "dirArgPredeclared":
 		return r.B("dirType") && r.B("idKeyword")
 	case "funcSyntaxGoEnum":
 		return r.B("builtinDir") && r.B("enum") && r.B("use_function_syntax_for_execution_context")
 	case "stubKeywordType":
 		return r.B("stub") && r.B("idKeyword")
+	case "argNamedPanic":
+		return r.B("idKeyword") && r.S("resolver") != "none"
+	case "autobindIntrospection":
+		return r.B("idKeyword") && r.S("models") == "bound"
+	case "valueStructCycle3":
+		return !r.B("struct_fields_always_pointers")
 	}
 	return false
 }
@@ -191,7 +199,7 @@ func C17QuirkApplies(q string, r C17Row) bool {
 func c17BuildSchema(row C17Row, seed int64, base string, quirks C17Quirks) *c17Builder {
 	b := &c17Builder{row: row, seed: seed, quirk: quirks, rng: rand.New(rand.NewSource(seed)), base: base,
 		s:        &c17Schema{byName: map[string]*c17Type{}},
-		needHand: map[string]bool{}, models: map[string]string{}}
+		needHand: map[string]bool{}, models: map[string]string{}, resolverFields: map[string][]string{}}
 	b.types = c17NewNameSet("Query", "Mutation", "Subscription", "Float", "Boolean", "ID",
 		"Time", "Map", "Any", "Upload", "Resolver", "Config", "Stub")
 	b.feature("core", b.core)
@@ -295,6 +303,9 @@ func (b *c17Builder) scalarField(t *c17Type) {
 func (b *c17Builder) core() {
 	b.query = b.s.addType(&c17Type{Kind: "object", Name: "Query"})
 	n := 2 + b.rng.Intn(3)
+	if b.quirk["valueStructCycle3"] {
+		n = 3
+	}
 	for i := 0; i < n; i++ {
 		t := b.newType("object", c17ObjPool...)
 		t.add(&c17Field{Name: "id", Type: "ID!"})
@@ -310,7 +321,14 @@ func (b *c17Builder) core() {
 		if b.rng.Intn(2) == 0 {
 			t.add(&c17Field{Name: "parent", Type: t.Name})
 		}
-		if b.rng.Intn(2) == 0 {
+		// non-null references i -> i+2: a self reference (n = 2), two 2-cycles (n = 4) or a
+		// 3-cycle (n = 3).  Known defect: with struct_fields_always_pointers: false modelgen
+		// breaks only self references and 2-cycles, so the 3-cycle is left open there.
+		wantOwner := b.rng.Intn(2) == 0
+		if n == 3 && i == 2 && !b.row.B("struct_fields_always_pointers") && !b.quirk["valueStructCycle3"] {
+			wantOwner = false
+		}
+		if wantOwner || b.quirk["valueStructCycle3"] {
 			t.add(&c17Field{Name: "owner" + b.obj(i+2).Name, Type: b.obj(i+2).Name + "!"})
 		}
 		b.query.add(&c17Field{Name: c17LcFirst(t.Name), Type: t.Name,
@@ -319,7 +337,10 @@ func (b *c17Builder) core() {
 	b.query.add(&c17Field{Name: "find", Type: b.obj(0).Name,
 		Args: []*c17Arg{{Name: "key", Type: "ID!"}, {Name: "limit", Type: "Int"}, {Name: "exact", Type: "Boolean!"}}})
 	b.query.add(&c17Field{Name: "version", Type: "String!"})
-	// a field with arguments on a non-root object (generated argument struct + resolver)
+	// models.<Type>.fields.<field>.resolver: true - a resolver for a field of a plain object
+	o0 := b.obj(0)
+	b.resolverFields[o0.Name] = append(b.resolverFields[o0.Name], o0.Fields[1+b.rng.Intn(2)].Name)
+	// a field with arguments on a non-root object
 	b.obj(0).add(&c17Field{Name: "related", Type: b.obj(1).Name,
 		Args: []*c17Arg{{Name: "first", Type: "Int"}, {Name: "after", Type: "ID"}}})
 }
@@ -585,21 +606,49 @@ var c17Keywords = []string{"type", "func", "range", "map", "string", "error", "n
 
 func (b *c17Builder) keywordSample(n int) []string {
 	out := append([]string{}, c17Keywords[:9]...)
-	rest := append([]string{}, c17Keywords[9:]...)
+	var rest []string
+	for _, k := range c17Keywords[9:] {
+		// known defect: the default resolver body is panic(fmt.Errorf(...)); an argument named
+		// panic shadows the builtin there
+		if k != "panic" {
+			rest = append(rest, k)
+		}
+	}
 	b.rng.Shuffle(len(rest), func(i, j int) { rest[i], rest[j] = rest[j], rest[i] })
-	return append(out, rest[:n]...)
+	out = append(out, rest[:n]...)
+	if b.quirk["argNamedPanic"] {
+		out = append(out, "panic")
+	}
+	return out
 }
 
 func (b *c17Builder) idKeyword() {
 	// as type names
 	cands := []string{"type", "func", "range", "string", "error", "int", "len", "nil", "select", "var", "bool", "any", "new"}
+	if b.row.S("models") != "gen" {
+		// a type named string / int next to the builtin scalars String / Int: autobind looks a
+		// schema type up by its name and by its Go name and would bind the scalar to the struct
+		// (and a type whose Go name is Type hijacks the introspection type __Type: known defect)
+		cands = []string{"func", "range", "error", "len", "nil", "select", "var", "bool", "new"}
+	}
 	if b.row.B("stub") && !b.quirk["stubKeywordType"] {
 		// known defect: stubgen emits `func (r *Stub) <type name>()`, a syntax error for a keyword
-		cands = []string{"string", "error", "int", "len", "nil", "bool", "any", "new"}
+		var keep []string
+		for _, c := range cands {
+			switch c {
+			case "type", "func", "range", "select", "var":
+			default:
+				keep = append(keep, c)
+			}
+		}
+		cands = keep
 	}
 	b.rng.Shuffle(len(cands), func(i, j int) { cands[i], cands[j] = cands[j], cands[i] })
 	if b.quirk["stubKeywordType"] {
-		cands = append([]string{"type", "var"}, cands...)
+		cands = append([]string{"var", "func"}, cands...)
+	}
+	if b.quirk["autobindIntrospection"] {
+		cands = append([]string{"type"}, cands...)
 	}
 	var kwTypes []*c17Type
 	for _, c := range cands {
@@ -627,6 +676,10 @@ func (b *c17Builder) idKeyword() {
 		args = append(args, &c17Arg{Name: k, Type: scal[b.rng.Intn(len(scal))]})
 	}
 	kwTypes[0].add(&c17Field{Name: "withArgs", Type: "String", Args: args})
+	for _, t := range kwTypes {
+		// resolvers of keyword-named types (resolver interface, ResolverRoot method, stub)
+		b.resolverFields[t.Name] = append(b.resolverFields[t.Name], t.Fields[1].Name)
+	}
 	var args2 []*c17Arg
 	for _, k := range b.keywordSample(5) {
 		args2 = append(args2, &c17Arg{Name: k, Type: scal[b.rng.Intn(len(scal))]})
